@@ -20,7 +20,7 @@ def one_layout(cid, lay, B, rng, which):
     from pybrops.breed.prot.sel.prob.OptimalHaploidValueSelectionProblem import OptimalHaploidValueSubsetSelectionProblem as OHV
     from pybrops.breed.prot.sel.prob.OptimalPopulationValueSelectionProblem import OptimalPopulationValueSubsetSelectionProblem as OPV
     M = sum(len(c) for c in lay)
-    n = rng.randrange(2, 5); T = rng.randrange(1, 3)
+    n = rng.randrange(2, 5); T = rng.randrange(1, 4)
     P = rng.choice([2, 2, 2, 4, 4, 3, 1])      # chromosome copies per individual = phase planes of the matrix
     geno = np.array([[[rng.randrange(2) for _ in range(M)] for _ in range(n)] for _ in range(P)], dtype="int8")
     u = np.array([[rng.randrange(-3, 4) for _ in range(T)] for _ in range(M)], dtype=float)
@@ -55,7 +55,16 @@ def one_layout(cid, lay, B, rng, which):
                 umisc = None if rng.random() < 0.6 else np.array([[rng.randrange(-9, 10) for _ in range(T)] for _ in range(rng.randrange(1, 4))], dtype=float)
                 gm = DenseAdditiveLinearGenomicModel(beta=np.zeros((1, T)), u_misc=umisc, u_a=u,
                                                      trait=np.array(["t%d" % k for k in range(T)], dtype=object))
-                hm = OHV._calc_haplomat(pg, gm, B)
+                # the three problem families (OHV, OPV, genotype builder) each compute the block values themselves
+                src = rng.choice(["ohv", "opv", "gb"])
+                if src == "ohv":
+                    hm = OHV._calc_haplomat(pg, gm, B)
+                elif src == "opv":
+                    hm = OPV._calc_haplomat(pg, gm, B)
+                else:
+                    from pybrops.breed.prot.sel.prob.GenotypeBuilderSelectionProblem import GenotypeBuilderSubsetSelectionProblem as GB
+                    hm = GB._calc_haplomat(pg, gm, B)
+                c["hsrc"] = src
                 r, ok = ints(hm)
                 c["hmat"] = r.tolist(); c["hfin"] = ok
                 npar = rng.choice([2, 2, 3]); uniq = rng.random() < 0.5
